@@ -887,7 +887,7 @@ MATCHERS = {}
 def run(ctx):
     ctx.matchers.update(MATCHERS)
     build = common.build_and_audit(PROP, ctx.tier)
-    cases = corpus_cases() + [gen_case(ctx.rng) for _ in range(ctx.q(1200, 12000))]
+    cases = corpus_cases() + [gen_case(ctx.rng) for _ in range(ctx.q(1200, 60000))]
     bad = evaluate(ctx, cases)
     if not bad and not build['build_ok']:
         bad = evaluate(ctx, [gen_case(ctx.rng) for _ in range(ctx.q(3000, 20000))])
